@@ -477,6 +477,27 @@ def _warm_runs(c, kw, subj, act, res, ctx, CHECKERS):
         except Exception as e:  # noqa: BLE001
             out.append({"how": "after set_policy(fresh object) on a Guard created with another policy", "decision": ["Raise", type(e).__name__]})
 
+        # (4) a Guard created with ANOTHER configuration whose public attributes are then reassigned to this case's
+        #     (policy via set_policy; strict_types, role_resolver, relationship_checker, obligations, cache, cache_ttl)
+        g = Guard(copy.deepcopy(decoy), strict_types=not bool(c.get("strict")))
+        try:
+            await g.evaluate_async(subj, act, res, ctx)
+        except Exception:  # noqa: BLE001
+            pass
+        ref = mk(copy.deepcopy(pol))
+        g.set_policy(copy.deepcopy(pol))
+        g.strict_types = bool(c.get("strict"))
+        g.role_resolver = ref.role_resolver
+        g.relationship_checker = ref.relationship_checker
+        g.obligations = ref.obligations
+        g.cache, g.cache_ttl = ref.cache, ref.cache_ttl
+        try:
+            out.append({"how": "on a Guard created with another configuration whose public attributes were then reassigned",
+                        "decision": dec(await g.evaluate_async(subj, act, res, ctx))})
+        except Exception as e:  # noqa: BLE001
+            out.append({"how": "on a Guard created with another configuration whose public attributes were then reassigned",
+                        "decision": ["Raise", type(e).__name__]})
+
     asyncio.run(go())
     return out
 
